@@ -8,6 +8,7 @@ package control
 // the user meant — and the packet, and answers with the proved first-match decision.
 
 import (
+	"github.com/daeuniverse/dae/common/assets"
 	"encoding/binary"
 	"encoding/hex"
 	"fmt"
@@ -55,6 +56,8 @@ type c01Rule struct {
 	style     int // how must is written: 0 none, 1 "must_" prefix, 2 "(must)" param
 }
 type c01Prog struct {
+	exotic  bool // carries a literal outside the property's alphabet (l4proto icmp, ipversion 5, inverted port range, dscp > 63)
+	aimFrom int  // > 0: packets are mostly aimed at rules[aimFrom:] (large programs: the late rules)
 	rules             []c01Rule
 	fbName            string
 	fbId              int
@@ -65,7 +68,16 @@ type c01Prog struct {
 	text, modelTokens string
 }
 
-var c01Outs = []string{"direct", "block", "g2", "g3", "g4", "g5", "g6", "g7"}
+// outbound ids as NewControlPlane assigns them: position in [direct, block, groups…]; production allows
+// ids 0..OutboundUserDefinedMax (0xFB).  Rules use a boundary-biased subset of them.
+var c01Outs = func() []string {
+	o := []string{"direct", "block"}
+	for i := 2; i <= int(consts.OutboundUserDefinedMax); i++ {
+		o = append(o, fmt.Sprintf("g%d", i))
+	}
+	return o
+}()
+var c01OutIds = []int{0, 1, 2, 3, 4, 5, 6, 7, 127, 128, 250, int(consts.OutboundUserDefinedMax)}
 var c01Labels = []string{"example", "test", "cdn", "a", "b1", "foo-bar", "x_y", "mail", "com", "org", "net", "co", "uk"}
 
 func c01RandDomain(r *VRand) string {
@@ -120,6 +132,7 @@ func c01GenCond(r *VRand, stats *VStats, p *c01Prog) c01Cond {
 				}
 				if r.Chance(0.05) && lo > 0 { // inverted range: never matches
 					hi = lo - 1
+					p.exotic = true
 				}
 				txt = fmt.Sprintf("%d-%d", lo, hi)
 			}
@@ -129,12 +142,14 @@ func c01GenCond(r *VRand, stats *VStats, p *c01Prog) c01Cond {
 		for i := 0; i < nv; i++ {
 			lit := []string{"tcp", "udp", "tcp", "udp", "icmp"}[r.Intn(5)]
 			bit := map[string]int{"tcp": 1, "udp": 2, "icmp": 0}[lit]
+			p.exotic = p.exotic || lit == "icmp"
 			g.vals = append(g.vals, c01Val{text: lit, tok: fmt.Sprint(bit), lit: lit})
 		}
 	case "ipversion":
 		for i := 0; i < nv; i++ {
 			lit := []string{"4", "6", "4", "6", "5"}[r.Intn(5)]
 			bit := map[string]int{"4": 1, "6": 2, "5": 0}[lit]
+			p.exotic = p.exotic || lit == "5"
 			g.vals = append(g.vals, c01Val{text: lit, tok: fmt.Sprint(bit), lit: lit})
 		}
 	case "mac":
@@ -160,8 +175,10 @@ func c01GenCond(r *VRand, stats *VStats, p *c01Prog) c01Cond {
 		}
 	case "pname":
 		for i := 0; i < nv; i++ {
-			base := []string{"curl", "NetworkManager", "systemd-resolved", "exactly16bytes_x", "seventeen_bytes_x", "a", "chrome"}[r.Intn(7)]
-			if r.Chance(0.2) {
+			base := []string{"curl", "NetworkManager", "systemd-resolved", "exactly16bytes_x", "seventeen_bytes_x", "a", "chrome", ""}[r.Intn(8)]
+			if base == "" {
+				stats.Inc("cond.pname.empty_name")
+			} else if r.Chance(0.2) {
 				base = base + strings.Repeat("z", r.Intn(20))
 			}
 			g.vals = append(g.vals, c01Val{text: "'" + base + "'", tok: hex.EncodeToString([]byte(base)), pname: base})
@@ -169,6 +186,7 @@ func c01GenCond(r *VRand, stats *VStats, p *c01Prog) c01Cond {
 	case "dscp":
 		for i := 0; i < nv; i++ {
 			v := []int{0, 1, 4, 8, 46, 63, 255}[r.Intn(7)]
+			p.exotic = p.exotic || v > 63
 			txt := fmt.Sprint(v)
 			if r.Chance(0.3) {
 				txt = fmt.Sprintf("0x%x", v)
@@ -309,16 +327,40 @@ func c01OutText(name string, mark uint32, must bool, style int) string {
 }
 
 func c01GenProg(r *VRand, stats *VStats, maxRules int) *c01Prog {
+	return c01GenProgN(r, stats, r.Intn(maxRules+1), 0)
+}
+
+// c01GenProgN: `filler` two-condition rules that (almost) no generated packet satisfies — each is two
+// match sets, a third of them with an LPM set of its own — followed by n ordinary random rules.
+func c01GenProgN(r *VRand, stats *VStats, n int, filler int) *c01Prog {
 	p := &c01Prog{}
-	n := r.Intn(maxRules + 1)
 	randOut := func() (string, int, uint32, bool, int) {
-		id := r.Intn(len(c01Outs))
+		id := c01OutIds[r.Intn(len(c01OutIds))]
 		var mark uint32
 		if r.Chance(0.4) {
 			mark = []uint32{1, 0x800, 0xffffffff, uint32(r.U64())}[r.Intn(4)]
 		}
 		must := r.Chance(0.25)
 		return c01Outs[id], id, mark, must, 1 + r.Intn(2)
+	}
+	for i := 0; i < filler; i++ {
+		var ru c01Rule
+		port := 10000 + i
+		c2 := c01Cond{fn: "dport", groups: []c01Group{{vals: []c01Val{{text: fmt.Sprint(port), tok: fmt.Sprintf("%d-%d", port, port), lo: port, hi: port}}}}}
+		var c1 c01Cond
+		if i%3 == 0 {
+			pf := netip.PrefixFrom(netip.AddrFrom4([4]byte{172, 16 + byte(i>>16), byte(i >> 8), byte(i)}), 32)
+			c1 = c01Cond{fn: "sip", groups: []c01Group{{vals: []c01Val{{text: "'" + pf.Addr().String() + "'", tok: c12Tok(pf), pfx: pf}}}}}
+		} else {
+			d := i % 64
+			c1 = c01Cond{fn: "dscp", groups: []c01Group{{vals: []c01Val{{text: fmt.Sprint(d), tok: fmt.Sprint(d), dscp: d}}}}}
+		}
+		ru.conds = []c01Cond{c1, c2}
+		ru.outName, ru.outId, ru.mark, ru.must, ru.style = randOut()
+		p.rules = append(p.rules, ru)
+	}
+	if filler > 0 {
+		p.aimFrom = filler
 	}
 	for i := 0; i < n; i++ {
 		var ru c01Rule
@@ -462,6 +504,9 @@ func c01GenPkt(r *VRand, p *c01Prog, stats *VStats) c01Pkt {
 		return k
 	}
 	ru := &p.rules[r.Intn(len(p.rules))]
+	if p.aimFrom > 0 && p.aimFrom < len(p.rules) && r.Chance(0.85) {
+		ru = &p.rules[p.aimFrom+r.Intn(len(p.rules)-p.aimFrom)]
+	}
 	for ci := range ru.conds {
 		c := &ru.conds[ci]
 		if !r.Chance(0.85) {
@@ -520,6 +565,11 @@ func c01GenPkt(r *VRand, p *c01Prog, stats *VStats) c01Pkt {
 				k.pname = [16]byte{}
 				copy(k.pname[:], v.pname[:len(v.pname)-1])
 			}
+			if r.Chance(0.12) && len(v.pname) < 16 { // the rule's name is a proper prefix of the process name
+				k.pname = [16]byte{}
+				copy(k.pname[:], v.pname+"x")
+				stats.Inc("pkt.pname_extends_rule_name")
+			}
 		case "dscp":
 			k.dscp = uint8(v.dscp)
 		case "domain":
@@ -549,10 +599,12 @@ func TestVerifC01(t *testing.T) {
 	log := logrus.New()
 	log.SetLevel(logrus.PanicLevel)
 
-	nProg, nPkt, maxRules := 250, 60, 12
+	nProg, nPkt, maxRules, nLarge := 250, 60, 12, 5
 	if VThorough() {
-		nProg, nPkt, maxRules = 2500, 80, 40
+		nProg, nPkt, maxRules, nLarge = 2500, 80, 40, 24
 	}
+	locationFinder := assets.NewLocationFinder(nil)
+	stats.Sample("production optimizer chain (regenerated from control_plane.go): " + strings.Join(c01ProductionOptimizerExprs, " ; "))
 	name2id := map[string]uint8{}
 	for i, n := range c01Outs {
 		name2id[n] = uint8(i)
@@ -562,7 +614,18 @@ func TestVerifC01(t *testing.T) {
 		if pi%10 == 0 {
 			mr = 2
 		}
-		p := c01GenProg(r, stats, mr)
+		var p *c01Prog
+		if pi < nLarge {
+			// "up to the match-set limit": ≈ 2 match sets per filler rule, so the ordinary rules at the
+			// end (domain / ip / mac sets among them) sit just below, across and just above position 1024
+			p = c01GenProgN(r, stats, 12+r.Intn(12), []int{300, 380, 420, 440, 460, 470, 480, 490, 500, 512}[r.Intn(10)])
+			stats.Inc("prog.large")
+		} else {
+			p = c01GenProg(r, stats, mr)
+			if len(p.rules) == 0 && r.Chance(0.85) { // keep the empty program rare
+				p = c01GenProg(r, stats, 3)
+			}
+		}
 		if pi < 2 {
 			stats.Sample(p.text)
 		}
@@ -577,13 +640,11 @@ func TestVerifC01(t *testing.T) {
 			if err != nil {
 				return "err:config:" + err.Error()
 			}
-			// the production pipeline of NewControlPlane (minus the geodata reader, which needs .dat files;
-			// its expansion is property C04's subject)
+			// the production pipeline of NewControlPlane: the optimizer list is regenerated from
+			// control_plane.go by translators/optchain on every run (geodata expansion is C04's subject:
+			// no geosite/geoip reference is generated here, so the reader opens no file)
 			program, err := routing.NewNormalizedProgram(conf.Routing.Rules, conf.Routing.Fallback,
-				&routing.AliasOptimizer{},
-				&routing.MergeAndSortRulesOptimizer{},
-				&routing.DeduplicateParamsOptimizer{},
-			)
+				c01ProductionOptimizers(log, locationFinder)...)
 			if err != nil {
 				return "err:optimizers:" + err.Error()
 			}
@@ -593,18 +654,34 @@ func TestVerifC01(t *testing.T) {
 			}
 			m, err := b.BuildUserspace()
 			if err != nil {
-				return "err:build:" + err.Error()
+				return "err:build" // the model predicts this one: a domain set beyond the match-set limit
 			}
 			matcher = m
 			nsets = len(m.compiledMatches)
 			return "ok"
 		})
+		if matcher == nil && p.exotic && (strings.HasPrefix(buildOut, "err:config:") || strings.HasPrefix(buildOut, "err:optimizers:") || strings.HasPrefix(buildOut, "err:builder:")) {
+			// a literal outside the property's alphabet was refused with a clean configuration error:
+			// the property does not speak about such programs
+			stats.Inc("prog.exotic_literal_rejected")
+			continue
+		}
 		st.Emit(p.modelTokens, buildOut)
 		stats.Add("rules", len(p.rules))
 		stats.Add("matchsets", nsets)
+		stats.Max("max_matchsets", nsets)
+		if p.exotic {
+			stats.Inc("prog.exotic_literal_accepted")
+		}
 		if matcher == nil {
 			stats.Inc("prog.build_failed")
+			if buildOut == "err:build" {
+				stats.Inc("prog.rejected_beyond_match_set_limit")
+			}
 			continue
+		}
+		if len(p.rules) == 0 {
+			stats.Inc("prog.empty")
 		}
 		cp := &ControlPlane{}
 		cp.routingMatcher = matcher
@@ -655,6 +732,23 @@ func TestVerifC01(t *testing.T) {
 			op := fmt.Sprintf("pkt %s %s %d %d %d %d %s %d %s %s N %s %s",
 				hex.EncodeToString(src16[:]), hex.EncodeToString(dst16[:]), pk.sport, pk.dport, ipver, int(pk.l4),
 				hex.EncodeToString(pk.pname[:]), pk.dscp, hex.EncodeToString(mac16[:]), dom, nameTok, rxTok)
+			if viaRoute {
+				// the raw arguments of Route: the model does the marshalling (As16, IP version from the
+				// destination, MAC into the 16-byte form) — Model.pktOfRoute
+				is4 := func(a netip.Addr) int {
+					if a.Is4() {
+						return 1
+					}
+					return 0
+				}
+				op = fmt.Sprintf("rpkt %d %s %d %s %d %d %d %s %d %s %s N %s %s",
+					is4(pk.src), hex.EncodeToString(pk.src.AsSlice()), is4(pk.dst), hex.EncodeToString(pk.dst.AsSlice()),
+					pk.sport, pk.dport, int(pk.l4), hex.EncodeToString(pk.pname[:]), pk.dscp, hex.EncodeToString(pk.mac[:]),
+					dom, nameTok, rxTok)
+				stats.Inc("pkt.via_Route_raw_args")
+			} else {
+				stats.Inc("pkt.via_Match_direct")
+			}
 			out := VRecover(func() string {
 				var ob consts.OutboundIndex
 				var mark uint32
